@@ -1,18 +1,10 @@
-# One entry per property: which harness binary, which library flavours, which evidence level.
+# Collects checks/cNN.meta.json (one file per property check; single source for driver and manifest).
+import json, os, glob
+_D = os.path.dirname(os.path.abspath(__file__))
+CHECKS = {}
+for _f in sorted(glob.glob(os.path.join(_D, "c[0-9][0-9].meta.json"))):
+    CHECKS[os.path.basename(_f)[:3].upper()] = json.load(open(_f))
+# commits in /repo that add guarded hooks (CPPUTEST_VERIF_HOOKS)
 HOOK_COMMITS = []
-NOT_APPLICABLE = {}
-
-CHECKS = {
-    "C18": {
-        "bin": "c18", "flavours": ["asan"], "level": "model_checking",
-        "deadline": {"quick": 150, "thorough": 1500},
-        "technique": "explicit-state bounded model checking on the implementation: every alloc/release/clear history up to the depth bound replayed on a fresh real cache (stateless DFS, canonical-state pruning), oracle = property-level invariants over a recording allocator under ASan",
-        "level_text": "Every operation history over a boundary-size alphabet up to depth 4 unpruned and depth 6 (quick) / 8 (thorough) with state pruning is executed on the real SimpleStringInternalCache; aliasing, capacity, class-local reuse, exactly-once return and the one-time warning are checked after every step. Exhaustive within the bound, nothing sampled.",
-        "level_note": "Trusted: harness recording allocator, ASan manual poisoning, the list model used only as pruning key (guarded by pointer-prediction agreement). Outside: deeper histories, sizes outside the alphabet, a non-default allocator that fails.",
-        "assumptions": [
-            "underlying allocator = harness recording allocator (exact-size blocks, poisoned on return, never reused within a history)",
-            "pruning key comes from a LIFO list model that is trusted only while every pointer the cache hands out equals the model's prediction; diverged executions are explored unpruned",
-            "sizes beyond the alphabet {0,1,31..33,64,65,96,97,128,129,256,257,1024} and histories deeper than the bound are outside the check",
-        ],
-    },
-}
+_na = os.path.join(_D, "not_applicable.json")
+NOT_APPLICABLE = json.load(open(_na)) if os.path.exists(_na) else {}
